@@ -1,7 +1,7 @@
 (* Properties_C18.v — C18: cdns-merge preserves every block and record; cdns-itemcount counts are true.
    An input is what the reader gets out of a file ([minput]: unreadable, or a preamble and the blocks read before the end of the
    file or the first error); [merge_run] follows the two passes of src/bin/cdns_merge.cpp.  Only statements here. *)
-Require Import Base Cbor Schema Block BlockProofs Exporter ExporterProofs Merge MergeProofs.
+Require Import Base Cbor Schema Block BlockProofs Exporter ExporterProofs Merge MergeProofs DecoderModel E2ESpec BlockRead FileProofs MergeFile TypeCheck.
 Local Open Scope N_scope.
 
 (* the blocks written are, in argument order, exactly the non-empty blocks of every accepted input (for an input that becomes
@@ -43,6 +43,38 @@ Theorem C18_itemcount : forall blocks,
   itemcount_blocks blocks = map (fun rb => (N.of_nat (length (r_qrs rb)), N.of_nat (length (r_aecs rb)), N.of_nat (length (r_mms rb)))) blocks.
 Proof. intros blocks. split; [apply itemcount_total_sum|reflexivity]. Qed.
 Print Assumptions C18_itemcount.
+
+(* THE MERGED FILE.  When the merged preamble is within the ranges of the format and every non-empty block handed to the exporter in
+   the second pass is too, refers to a parameter set of the merged preamble with the parameters it was built under, and satisfies the
+   block invariants (record times not before the block's earliest time, address-event keys distinct — what every block read from an
+   exporter-produced file satisfies), the bytes cdns-merge writes are header(merged preamble) ++ the blocks of the specification ++
+   break — or nothing when no block qualifies — and the file reader returns exactly that preamble and those blocks from them. *)
+Theorem C18_merged_file : forall ins, merge_ok ins ->
+  let pre := merged_preamble (run_pass1 ins) in
+  merge_bytes ins = file_bytes pre (merge_spec ins) /\ reads_back (pre, merge_spec ins).
+Proof. exact merge_file. Qed.
+Print Assumptions C18_merged_file.
+
+(* the hypotheses are decidable; they hold for inputs that an exporter produced and the reader read (here: the same one-block file
+   given twice, with an unreadable input in between) *)
+Theorem C18_merged_file_hypotheses_decidable : forall ins, merge_okb ins = true -> merge_ok ins.
+Proof. exact merge_okb_sound. Qed.
+Print Assumptions C18_merged_file_hypotheses_decidable.
+Example C18_merged_file_nonvacuous :
+  let pre := VR [Some (VN 1); Some (VN 0); None; Some (VL [VR [Some (VR [Some (VN 1000); Some (VN 10);
+                 Some (VR [Some (VN 262143); Some (VN 131071); Some (VN 3); Some (VN 3)]); Some (VL []); Some (VL []);
+                 None; None; None; None; None; None; None]); None]])] in
+  let gr := [Some (VL [VN 5; VN 1]); Some (VS [10; 0; 0; 1]); Some (VN 53)] in
+  let ga := [Some (VN 1); None; None; Some (VS [10; 0; 0; 1])] in
+  let x1 := fst (buffer_aec ga None (fst (buffer_qr gr None (x_new pre)))) in
+  let out := destroy (fst (write_block x1)) in
+  match run (read_file 400) out with
+  | (inl (p, rbs), []) =>
+      let ins := [MFile 1 p rbs; MBad 2; MFile 3 p rbs] in
+      merge_okb ins = true /\ length (merge_spec ins) = 2%nat /\ (0 < length (merge_bytes ins))%nat
+  | _ => False
+  end.
+Proof. vm_compute. repeat split. lia. Qed.
 
 Example C18_nonvacuous :
   let pre1 := VR [Some (VN 1); Some (VN 0); None; Some (VL [VR []])] in
